@@ -36,7 +36,8 @@ Definition ring_overlap (size p1 n1 p2 n2 : Z) : bool :=
   (0 <? n1) && (0 <? n2) && (((p2 - p1) mod size <? n1) || ((p1 - p2) mod size <? n2)).
 
 Definition aliases (size off len : Z) (q : list chunk) : bool :=
-  existsb (fun c => ring_overlap size (off mod size) len (c_pos c) (c_len c)) q.
+  (* chunks committed before the oracle has seen any claim have no known position (c_pos < 0): nothing is said about them *)
+  existsb (fun c => (0 <=? c_pos c) && ring_overlap size (off mod size) len (c_pos c) (c_len c)) q.
 
 Fixpoint cdrop (k : Z) (q : list chunk) : list chunk :=
   match q with
@@ -44,7 +45,7 @@ Fixpoint cdrop (k : Z) (q : list chunk) : list chunk :=
   | c :: r =>
       if k <=? 0 then q
       else if c_len c <=? k then cdrop (k - c_len c) r
-      else mkchunk (c_pos c + k) (c_len c - k) (zdrop k (c_bytes c)) :: r
+      else mkchunk (if c_pos c <? 0 then c_pos c else c_pos c + k) (c_len c - k) (zdrop k (c_bytes c)) :: r
   end.
 
 Fixpoint agree (known : list (option Z)) (got : list Z) : bool :=
@@ -85,7 +86,7 @@ Definition rstep (s : rst) (o : rop) (ob : robs) : rst * rverdict :=
       let k := Z.max 0 (Z.min n free) in
       let off := match r_live s with Some r => Some (soff r)
                  | None => match r_next s with Some p => Some p | None => None end end in
-      let pos := match off with Some a => a mod r_sz s | None => 0 end in
+      let pos := match off with Some a => a mod r_sz s | None => -1 end in
       let q' := if 0 <? k then r_queue s ++ [mkchunk pos k (pad k (r_livec s))] else r_queue s in
       let s' := mkrst (r_sz s) q' (match off with Some a => Some ((a + k) mod r_sz s) | None => None end) None [] in
       if r_int ob =? k then (s', fin s') else (s', RReject 4)
